@@ -318,17 +318,22 @@ pub fn run_c08(ctx: &Ctx, st: &mut Local) {
         ]
     };
     e5_devspace(ctx, "E5xE13", &specs, st, &mut f);
+    e2_crossblock(ctx, "E2sxE13", st, &mut f);
+    {
+        let dists: Vec<u16> = if ctx.quick() { vec![1, 4, 300, 32768] } else { vec![1, 2, 4, 5, 300, 4096, 4097, 32506, 32507, 32767, 32768] };
+        e4_single(ctx, "E4sxE13", &[3, 4, 258], &dists, st, &mut f);
+    }
     let comps: Vec<Comp> = vec![
         Comp::Zlib(1, 0, 15, 8), Comp::Zlib(4, 0, 15, 8), Comp::Zlib(6, 0, 9, 1), Comp::Zlib(9, 0, 15, 9), Comp::Zlib(6, 3, 15, 8),
         Comp::ZlibNg(1), Comp::ZlibNg(3), Comp::Libdeflate(1), Comp::Libdeflate(6), Comp::Miniz(1), Comp::Miniz(6), Comp::Libdeflate(12),
     ];
-    let texts: Vec<(usize, usize)> = if ctx.quick() { vec![(1, 700)] } else { vec![(1, 3000), (5, 70_000)] };
+    let texts: Vec<(usize, usize)> = if ctx.quick() { vec![(1, 700), (9, 2400)] } else { vec![(1, 3000), (9, 6000), (5, 70_000)] };
     let mut g = |st: &mut Local, e: &str, i: u64, c: &StreamCase, _k: &Comp| f(st, e, i, c);
     e6_compgrid(ctx, "E6xE13", &comps, &texts, st, &mut g);
     let lens = if ctx.quick() { 40 } else { 120 };
     let sweep: Vec<Comp> = vec![Comp::Zlib(6, 0, 15, 8), Comp::Libdeflate(6), Comp::ZlibNg(2), Comp::Miniz(1)];
     e6_lensweep(ctx, "E6lenxE13", &sweep, &[1], lens, st, &mut g);
-    for name in ["E1(2,7)xE13", "E1(2,9)xE13", "E1(3,6)xE13", "E5xE13", "E6xE13", "E6lenxE13"] {
+    for name in ["E1(2,7)xE13", "E1(2,9)xE13", "E1(3,6)xE13", "E5xE13", "E2sxE13", "E4sxE13", "E6xE13", "E6lenxE13"] {
         if let Some(e) = st.engines.get_mut(name) {
             e.notes.push(format!(
                 "per stream: the estimator's vector, every single-field deviation over 13 per-field menus, {} pairs of deviations, the full product 9 hash algorithms x 5 add policies x 3 matching types (x a max_chain=1/min_len=4 variant); states/transitions count streams, traces count (stream, vector) executions",
